@@ -1,5 +1,6 @@
 """C18 - concurrent requests on one connection: no cross-talk, no lost responses."""
 from harness.sm import *  # noqa
+from symcheck.env import Ticks  # noqa
 from harness import sm
 from symcheck.env import MiniSched, ENV, fine_start, SUB, TICKS_PER_SEC
 from symcheck import env as E
@@ -39,7 +40,7 @@ def _run_stub(n, script, T):
     sched = MiniSched(script)
     rs, ws = sched.stream(), _Wire()
     ids = _ids(n)
-    coros = [SM.send_message(rs, ws, "m", {"j": j}, timeout=T, message_id=ids[j]) for j in range(n)]
+    coros = [SM.send_message(rs, ws, "m", {"j": j}, timeout=Ticks(T), message_id=ids[j]) for j in range(n)]
     tasks = sched.run(coros)
     res = []
     for t in tasks:
@@ -176,7 +177,7 @@ def crosstalk_ids(order, notif_pos, id0, id1):
     ENV.reset([])
     sched = MiniSched(script)
     rs, ws = sched.stream(), _Wire()
-    coros = [SM.send_message(rs, ws, "m", {"j": j}, timeout=100, message_id=ids[j]) for j in range(2)]
+    coros = [SM.send_message(rs, ws, "m", {"j": j}, timeout=Ticks(100), message_id=ids[j]) for j in range(2)]
     tasks = sched.run(coros)
     for t in tasks:
         if t.exc is None and not same_json(t.result, {"v": t.idx}):
